@@ -406,6 +406,9 @@ def arity_case(draw, fmt):
             cells = {'raw': ','.join(render_csv([c]) for c in row_strategy_cells(draw, ncols, no_tab)[:j]) +
                      (',' if j else '') + '"' + draw(st.sampled_from(['blue sho', 'x', 'a,b', '']))}
         rows.append(cells)
+    if ncols < 100 and draw(st.integers(0, 5)) == 0:
+        # a well-formed data row whose cells happen to be the column names (a legend row, a repeated header of a concatenated dump)
+        rows.insert(draw(st.integers(0, len(rows))), header_for(ncols))
     return {'fmt': fmt, 'ncols': ncols, 'rows': rows, 'm': draw(st.integers(1, 3)),
             'quote_all': draw(st.booleans()), 'final_newline': draw(st.booleans())}
 
@@ -474,6 +477,8 @@ def oracle_arity(case, rec):
         rec.cls('cell>65536-chars')
     if any(raw is not None for _, raw in expanded):
         rec.cls('record-cut-inside-quoted-field')
+    if any(c == header for c, _ in expanded):
+        rec.cls('data-row-equal-to-header')
     if fmt == 'csv':
         sources, delim = ('csv-raw', 'ob-csv'), ','
         lines = [raw if raw is not None else render_csv(c, case['quote_all']) for c, raw in expanded]
